@@ -636,8 +636,7 @@ toslice_part(ak::Slice& slice, py::object obj) {
           }
           std::string format(info.format);
           format.erase(0, format.find_first_not_of("@=<>!"));
-          if (py::isinstance<py::array>(obj) &&
-              !ak::util::is_integer(
+          if (!ak::util::is_integer(
                 ak::util::format_to_dtype(format, (int64_t)info.itemsize))  &&
               flatlen != 0) {
             throw std::invalid_argument(
